@@ -285,6 +285,7 @@ package gen
 //@   ensures[C09] wfault == old(wfault)
 //@   ensures[C06] p.meta.docs == old(p.meta.docs) + 1 && p.meta.rowGroupDocs == old(p.meta.rowGroupDocs) + 1 && p.meta.rowGroups == old(p.meta.rowGroups) && p.meta.ts == old(p.meta.ts)
 //@   ensures[C06] chainInv(allocbound()) && (forall r in 1..old(allocbound()): nodeKept(cast("*GEN.ParquetWriter", r)))
+//@   ensures[C06] nodeKept(p)
 //@   ensures[C06] old(rootOK(p)) ==> p.max >= 1 && p.len >= 0 && p.len <= p.max && #p.fields >= 1
 //@   ensures[C06] old(rootOK(p)) ==> mInv(p.meta)
 //@   ensures[C06] old(rootOK(p)) ==> lastRows(p.meta) == 0
